@@ -59,6 +59,23 @@ def render_structs(k, it: Item, meta, cfg, strum_path="strum"):
                 let ci = tok.find(':').unwrap();
                 let slot: usize = tok[..ci].parse().unwrap();
                 let op = &tok[ci + 1..];
+                if b"KZGDRE".contains(&op.as_bytes()[0]) {
+                    // std methods a generator could override, on a CLONE of the slot (the clone takes the next slot number, as in the model)
+                    let cl = its[slot].clone();
+                    its.push(cl.clone());
+                    let total = %(n)d + 1;
+                    let pad = |mut v: Vec<String>| { while v.len() < total { v.push("none".to_string()); } v.join(";") };
+                    let r = catch_mut(|| match op.as_bytes()[0] {
+                        b'K' => format!("len={}", cl.count()),
+                        b'Z' => item_obs(cl.last(), vidx),
+                        b'G' => pad(cl.map(|e| format!("v{}", vidx(&e))).collect::<Vec<String>>()),
+                        b'D' => pad(cl.fold(Vec::new(), |mut v, e| { v.push(format!("v{}", vidx(&e))); v })),
+                        b'R' => pad(cl.rev().map(|e| format!("v{}", vidx(&e))).collect::<Vec<String>>()),
+                        _ => pad(cl.rfold(Vec::new(), |mut v, e| { v.push(format!("v{}", vidx(&e))); v })),
+                    });
+                    out.push(r);
+                    continue;
+                }
                 let it = &mut its[slot];
                 let r = catch_mut(|| match op.as_bytes()[0] {
                     b'n' => item_obs(it.next(), vidx),
@@ -66,13 +83,14 @@ def render_structs(k, it: Item, meta, cfg, strum_path="strum"):
                     b't' => { let n: usize = op[1..].parse().unwrap(); item_obs(it.nth(n), vidx) }
                     b'u' => { let n: usize = op[1..].parse().unwrap(); item_obs(it.nth_back(n), vidx) }
                     b'l' => format!("len={}", it.len()),
+                    b'K' | b'Z' | b'G' | b'D' | b'R' | b'E' => "HARNESS-CLONE-OP".to_string(),
                     b'h' => { let (a, b) = it.size_hint(); format!("hint={},{}", a, match b { Some(x) => x.to_string(), None => "none".to_string() }) }
                     _ => "HARNESS-BAD-OP".to_string(),
                 });
                 out.push(r);
             }
             out.join(";")
-        ''' % {"sp": strum_path, "ty": ty, "ity": iter_ty}
+        ''' % {"sp": strum_path, "ty": ty, "ity": iter_ty, "n": sum(1 for v in it.variants if not v.has("disabled"))}
         arms["adapt"] = '''
             use %(sp)s::IntoEnumIterator;
             let ci = args[0].find(':').unwrap_or(args[0].len());
@@ -230,7 +248,15 @@ def render_structs(k, it: Item, meta, cfg, strum_path="strum"):
             let v = val(j);
             let o = |x: Option<&'static str>| match x { Some(s) => format!("some:{}", xs(s)), None => "none".to_string() };
             let ser: Vec<String> = v.get_serializations().iter().map(|s| xs(s)).collect();
-            format!("m={}|d={}|doc={}|ser=[{}]", o(v.get_message()), o(v.get_detailed_message()), o(v.get_documentation()), ser.join(";"))
+            let direct = format!("m={}|d={}|doc={}|ser=[{}]", o(v.get_message()), o(v.get_detailed_message()), o(v.get_documentation()), ser.join(";"));
+            // the same getters through other receivers (method resolution may pick another impl): &&E, Box<E>, &mut E
+            let rr = &&v;
+            let ser2: Vec<String> = rr.get_serializations().iter().map(|s| xs(s)).collect();
+            let via_ref = format!("m={}|d={}|doc={}|ser=[{}]", o(rr.get_message()), o(rr.get_detailed_message()), o(rr.get_documentation()), ser2.join(";"));
+            let bx = Box::new(val(j));
+            let ser3: Vec<String> = bx.get_serializations().iter().map(|s| xs(s)).collect();
+            let via_box = format!("m={}|d={}|doc={}|ser=[{}]", o(bx.get_message()), o(bx.get_detailed_message()), o(bx.get_documentation()), ser3.join(";"));
+            if via_ref != direct || via_box != direct { format!("RECEIVER-MISMATCH direct={} via&&={} viaBox={}", direct, via_ref, via_box) } else { direct }
         ''' % strum_path
     if "EnumProperty" in derives:
         arms["prop"] = '''
@@ -238,10 +264,19 @@ def render_structs(k, it: Item, meta, cfg, strum_path="strum"):
             let j: usize = args[0].parse().unwrap();
             let key = unhex_str(args[2]);
             let v = val(j);
-            format!("s={}|i={}|b={}",
-                match v.get_str(&key) { Some(s) => format!("some:{}", xs(s)), None => "none".to_string() },
-                match v.get_int(&key) { Some(n) => format!("some:{}", n), None => "none".to_string() },
-                match v.get_bool(&key) { Some(b) => format!("some:{}", if b { 1 } else { 0 }), None => "none".to_string() })
+            let fs = |x: Option<&'static str>| match x { Some(s) => format!("some:{}", xs(s)), None => "none".to_string() };
+            let fi = |x: Option<i64>| match x { Some(n) => format!("some:{}", n), None => "none".to_string() };
+            let fb = |x: Option<bool>| match x { Some(b) => format!("some:{}", if b { 1 } else { 0 }), None => "none".to_string() };
+            let direct = format!("s={}|i={}|b={}", fs(v.get_str(&key)), fi(v.get_int(&key)), fb(v.get_bool(&key)));
+            // the same getters through other receivers (method resolution may pick another impl): &&E, Box<E>, &mut E
+            let rr = &&v;
+            let via_ref = format!("s={}|i={}|b={}", fs(rr.get_str(&key)), fi(rr.get_int(&key)), fb(rr.get_bool(&key)));
+            let mut w = val(j);
+            let rm = &mut w;
+            let via_mut = format!("s={}|i={}|b={}", fs(rm.get_str(&key)), fi(rm.get_int(&key)), fb(rm.get_bool(&key)));
+            let bx = Box::new(val(j));
+            let via_box = format!("s={}|i={}|b={}", fs(bx.get_str(&key)), fi(bx.get_int(&key)), fb(bx.get_bool(&key)));
+            if via_ref != direct || via_mut != direct || via_box != direct { format!("RECEIVER-MISMATCH direct={} via&&={} via&mut={} viaBox={}", direct, via_ref, via_mut, via_box) } else { direct }
         ''' % strum_path
     if meta.get("extra_src"):
         src.append(meta["extra_src"])
